@@ -25,8 +25,52 @@ def load_corpus():
     return json.loads(p.read_text())
 
 
+def apply_unified_diff(text, root):
+    """apply a `git diff` to the files under root, in memory: {relative path: new source}; None if a hunk does not fit"""
+    import pathlib
+    import re
+    out = {}
+    cur, lines, delta = None, None, 0
+    hunks = []
+    for ln in text.splitlines():
+        if ln.startswith('+++ '):
+            cur = ln[4:].strip()
+            cur = cur[2:] if cur.startswith('b/') else cur
+            hunks.append((cur, []))
+        elif ln.startswith('@@') and hunks:
+            m = re.match(r'@@ -(\d+)(?:,(\d+))? \+(\d+)(?:,(\d+))? @@', ln)
+            hunks[-1][1].append([int(m.group(1)), []])
+        elif hunks and hunks[-1][1] and ln[:1] in (' ', '+', '-') and not ln.startswith('--- '):
+            hunks[-1][1][-1][1].append(ln)
+        elif hunks and hunks[-1][1] and ln == '':
+            hunks[-1][1][-1][1].append(' ')
+    for rel, hs in hunks:
+        path = pathlib.Path(root) / rel
+        if not path.exists():
+            return None
+        src = path.read_text().split('\n')
+        delta = 0
+        for start, body in hs:
+            old = [x[1:] for x in body if x[:1] in (' ', '-')]
+            new = [x[1:] for x in body if x[:1] in (' ', '+')]
+            at = start - 1 + delta
+            found = None
+            for off in sorted(range(-30, 31), key=abs):
+                if src[at + off: at + off + len(old)] == old:
+                    found = at + off
+                    break
+            if found is None:
+                return None
+            src[found: found + len(old)] = new
+            delta += len(new) - len(old)
+        out[rel] = '\n'.join(src)
+    return out
+
+
 def apply_variant(v, root):
     import pathlib
+    if v.get('patch'):
+        return apply_unified_diff((VERIF / 'pbv' / v['patch']).read_text(), root)
     overlay = {}
     for ed in v['edits']:
         rel = ed['file']
